@@ -385,7 +385,7 @@ def directed_cases():
 
 
 def run(ctx):
-    n = 350 if ctx.tier == "quick" else 15000
+    n = 900 if ctx.tier == "quick" else 15000
     core.WARM_P = 0.0  # warm-up is done explicitly per configuration
     if ctx.replay:
         c = ctx.replay["case"]
